@@ -44,6 +44,74 @@ def method(model, cls, name, report):
     return f
 
 
+
+def flag_sets_written_as_held(ctx, report, RULE='C11.R15', title=None):
+    """A flag word is the OR of the members the object holds.  The collection handed to ``compose_numeric_flags`` is followed
+    back (through locals of the composer and through helper methods reached as ``self.helper()`` / ``cls.helper(...)``, two calls
+    deep): it may be the attribute, a copy, or a selection of its members (a filtering comprehension - the MySQL capability
+    halves - , ``&``, ``-``); a member put in on the way (``add`` / ``update`` / ``|`` / ``union`` / a display or concatenation naming members)
+    makes the word something else than the OR of the members held, and parse -> compose no longer reproduces a word without it."""
+    report.rule(RULE, title or 'flag words are the OR of the members held: nothing is added to the collection on its way to compose_numeric_flags')
+
+    def growth(fnode, name):
+        """texts of the statements of fnode that put something into the local ``name``"""
+        out = []
+        for x in ast.walk(fnode):
+            if isinstance(x, ast.Call) and isinstance(x.func, ast.Attribute) and x.func.attr in ('add', 'update', 'append', 'extend', 'insert') and \
+                    isinstance(x.func.value, ast.Name) and x.func.value.id == name:
+                out.append(ast.unparse(x)[:70])
+            if isinstance(x, ast.AugAssign) and isinstance(x.target, ast.Name) and x.target.id == name and isinstance(x.op, (ast.BitOr, ast.Add)):
+                out.append(ast.unparse(x)[:70])
+        return out
+
+    def expr_adds(e, f, depth, seen):
+        """reasons why the value of expression e (in function f) can hold a member the object does not"""
+        if isinstance(e, ast.BinOp) and isinstance(e.op, (ast.BitOr, ast.Add)):
+            return ['%s joins two collections' % ast.unparse(e)[:70]]
+        if isinstance(e, ast.Call) and isinstance(e.func, ast.Attribute) and e.func.attr == 'union':
+            return ['%s joins two collections' % ast.unparse(e)[:70]]
+        if isinstance(e, (ast.Set, ast.List, ast.Tuple)) and e.elts:
+            return ['%s names members itself' % ast.unparse(e)[:70]]
+        if isinstance(e, ast.Call) and isinstance(e.func, ast.Name) and e.func.id in ('set', 'list', 'tuple', 'frozenset', 'sorted') and e.args:
+            return expr_adds(e.args[0], f, depth, seen)
+        if isinstance(e, ast.Name):
+            out = list(growth(f.node, e.id))
+            for st in ast.walk(f.node):
+                if isinstance(st, ast.Assign) and any(isinstance(t, ast.Name) and t.id == e.id for t in st.targets) and (id(st), e.id) not in seen:
+                    seen.add((id(st), e.id))
+                    out.extend(expr_adds(st.value, f, depth, seen))
+            return out
+        if isinstance(e, ast.Call) and isinstance(e.func, ast.Attribute) and isinstance(e.func.value, ast.Name) and e.func.value.id in ('self', 'cls') and \
+                f.cls is not None and depth < 2:
+            g = f.cls.resolve(e.func.attr)
+            if g is not None and not g.module.external and getattr(g, 'node', None) is not None:
+                out = []
+                for r in ast.walk(g.node):
+                    if isinstance(r, ast.Return) and r.value is not None:
+                        out.extend('%s: %s' % (g.name, t) for t in expr_adds(r.value, g, depth + 1, seen))
+                return out
+        return []
+    sample = ast.parse("def _p(self):\n    p = set(self.protocol)\n    if X.A in p:\n        p.add(X.B)\n    return p\n").body[0]
+
+    class _F:
+        node, cls = sample, None
+    if not expr_adds(ast.parse('p').body[0].value, _F, 0, set()):
+        report.error('%s: the rule does not recognise its own sample' % RULE)
+        return
+    n = 0
+    for f in ctx.model.functions():
+        if f.module.external:
+            continue
+        for x in ast.walk(f.node):
+            if isinstance(x, ast.Call) and isinstance(x.func, ast.Attribute) and x.func.attr == 'compose_numeric_flags' and x.args:
+                n += 1
+                why = expr_adds(x.args[0], f, 0, set())
+                if why:
+                    report.add(RULE, '%s@flags[%s]' % (f.construct, ast.unparse(x.args[0])[:40]),
+                               'the collection handed to compose_numeric_flags can hold a member the object does not: %s' % '; '.join(why)[:200])
+    report.count(RULE, n)
+    report.floor(RULE, 5, 'compose_numeric_flags calls of the package')
+
 def check(ctx, report):
     model, it = ctx.model, ctx.interp
     report.rule('C11.R1', 'width table, byte orders, 3-byte padding symmetric, composer range check before cutting bytes')
@@ -52,6 +120,7 @@ def check(ctx, report):
     report.rule('C11.R4', 'flags: intersect on parse, OR on compose, mirrored shifts')
     report.rule('C11.R5', 'timestamp sentinel has the field width on both sides')
     fields_written_as_stored(ctx, report)
+    flag_sets_written_as_held(ctx, report)
     report.floor('C11.R8', 20, 'timestamp fields')
     # the primitives are functions of their arguments: nothing is remembered between two calls (a memo keyed by the wire word alone
     # answers a shifted word with the members of the unshifted one); rules shared with C19.R5 / R10
